@@ -137,9 +137,80 @@ def check_rt_sysex(payload, inserts, how='list'):
     return []
 
 
+UNDEFINED = (0xF4, 0xF5, 0xF9, 0xFD)
+
+
+def build_grammar(segs):
+    """A stream assembled from segments whose yield is known BY CONSTRUCTION (no parser involved):
+      ['whole', d]   a complete encoded message                      -> yields d
+      ['cut', d, k]  the first k bytes of a longer encoding          -> yields nothing, leaves a message open
+      ['stray', bs]  data bytes while no message is open             -> nothing
+      ['eox']        a lone F7 while no sysex is open                -> nothing (closes an open channel message)
+      ['undef', b]   an undefined status byte while nothing is open  -> nothing
+    Combinations whose meaning the property does not fix are not built (returns None): data bytes / undefined bytes
+    while a message is open, a real-time byte inside a cut-short channel message.  An open message is abandoned by the
+    next non-real-time status byte; a real-time message inside an open sysex is delivered and leaves it open.
+    Returns (bytes, expected message dicts, segment boundaries)."""
+    data, want, bounds = [], [], []
+    state = 'idle'           # 'idle' | 'sysex' | 'chan'
+    for seg in segs:
+        kind = seg[0]
+        if kind == 'whole':
+            d = seg[1]
+            if d['type'] in R.REALTIME:
+                if state == 'chan':
+                    return None
+            else:
+                state = 'idle'
+            data += R.ref_encode(d)
+            want.append(d)
+        elif kind == 'cut':
+            d, k = seg[1], seg[2]
+            enc = R.ref_encode(d)
+            if d['type'] in R.REALTIME or not (1 <= k < len(enc)):
+                return None
+            data += enc[:k]
+            state = 'sysex' if d['type'] == 'sysex' else 'chan'
+        elif kind == 'stray':
+            if state != 'idle' or any(not (0 <= b < 0x80) for b in seg[1]):
+                return None
+            data += seg[1]
+        elif kind == 'eox':
+            if state == 'sysex':
+                return None
+            data.append(0xF7)
+            state = 'idle'
+        elif kind == 'undef':
+            if state != 'idle' or seg[1] not in UNDEFINED:
+                return None
+            data.append(seg[1])
+        else:
+            raise KeyError(kind)
+        bounds.append(len(data))
+    return data, want, bounds
+
+
+def check_grammar(segs, how='list'):
+    built = build_grammar(segs)
+    if built is None:
+        return []
+    data, want_d, _ = built
+    try:
+        got = parse_how(data, how)
+        want = [mk(d) for d in want_d]
+    except Exception as exc:  # noqa: BLE001
+        return [fail('raises', f'segments {segs}: {exc!r}', exc=exc_sig(exc))]
+    if len(got) != len(want) or any(type(a) is not mido.Message or not (a == b) for a, b in zip(got, want)):
+        return [fail('resync-constructed', f'segments {segs} = bytes {data[:24]}: got {got!r}, by construction the stream '
+                                           f'holds {want!r}'[:900], how=how)]
+    return []
+
+
 def run_case(case):
     k = case['kind']
     how = case.get('how', 'list')
+    if k == 'grammar':
+        return check_grammar(case['segs'], how)
     if k == 'prefix':
         return check_prefix(case['prefix'], case['msg'], how)
     if k == 'concat':
@@ -156,6 +227,8 @@ def run_case(case):
 
 def nontrivial(case):
     k = case['kind']
+    if k == 'grammar':
+        return any(s[0] == 'cut' for s in case['segs'])
     if k == 'prefix':
         return len(case['prefix']) > 0 and ends_open(case['prefix'])
     if k == 'concat':
@@ -210,11 +283,44 @@ def prefix_shard(rec, shard):
     rec.samples.append({'kind': 'prefix', 'prefix': [first, 0x90, 0x00][:maxlen], 'msg': msgs[0]})
 
 
-def main(ctx):
-    maxlen = 3 if ctx.tier == 'quick' else 4
-    ctx.pmap('prefix_shard', [(a, maxlen) for a in S.CLASS_ALPHABET])
-    # every proper prefix of every encoding (both settings) followed by every message: covers "same status restarts"
-    for t in R.ALL_TYPES:
+@st.composite
+def segment_lists(draw):
+    md = S.msg_dict(time=st.just(0), max_sysex=6)
+    seg = st.one_of(
+        md.map(lambda d: ['whole', d]), md.map(lambda d: ['whole', d]),
+        st.tuples(md, st.integers(1, 8)).map(lambda z: ['cut', z[0], 1 + (z[1] - 1) % max(1, len(R.ref_encode(z[0])) - 1)]),
+        st.lists(st.integers(0, 127), min_size=1, max_size=3).map(lambda bs: ['stray', bs]),
+        st.just(['eox']), st.sampled_from(UNDEFINED).map(lambda b: ['undef', b]))
+    segs = draw(st.lists(seg, min_size=1, max_size=7))
+    segs.append(['whole', draw(S.msg_dict(types=[t for t in R.ALL_TYPES if t not in R.REALTIME], time=st.just(0),
+                                          max_sysex=4))])
+    return {'kind': 'grammar', 'segs': segs, 'how': draw(st.sampled_from(HOWS))}
+
+
+def grammar_shard(rec, shard):
+    t, = shard
+    final = R.default_msg('note_on', note=77, velocity=3)
+    tails = ([], [['stray', [5]]], [['eox']], [['stray', [2, 3]], ['eox']], [['undef', 0xF4]], [['stray', [3]], ['undef', 0xFD]])
+    for d0 in two_settings(t):
+        enc = R.ref_encode(d0)
+        for k in range(1, len(enc)):
+            for t2 in R.ALL_TYPES:
+                d1 = two_settings(t2)[0]
+                for tail in tails:
+                    segs = [['cut', d0, k], ['whole', d1]] + tail + [['whole', final]]
+                    if build_grammar(segs) is None:
+                        continue
+                    for how in ('list', 'bytewise'):
+                        rec.check({'kind': 'grammar', 'segs': segs, 'how': how}, sample=(k == 1 and t2 == 'tune_request'
+                                                                                       and not tail and how == 'list'))
+
+
+def block_shard(rec, shard):
+    """The sequential blocks of this check, one per worker."""
+    block, arg, tier = shard
+    if block == 'cut-prefixes':
+        # every proper prefix of every encoding (both settings) followed by every message: covers "same status restarts"
+        t = arg
         for d0 in two_settings(t):
             enc = R.ref_encode(d0)
             for k in range(0, len(enc)):
@@ -224,50 +330,79 @@ def main(ctx):
                             dd = dict(d)
                             if ch is not None:
                                 dd['channel'] = ch
-                            ctx.check({'kind': 'prefix', 'prefix': enc[:k], 'msg': dd}, sample=False)
-    # every way of handing the bytes over, for every type as the final message behind a few prefixes
-    for t in R.ALL_TYPES:
-        for d in two_settings(t):
-            for prefix in ([], [0x90, 0x10], [0xF0, 0x01], [0x05, 0xF7]):
-                for how in HOWS:
-                    ctx.check({'kind': 'prefix', 'prefix': prefix, 'msg': d, 'how': how}, sample=False)
-    for how in HOWS:
-        ctx.check({'kind': 'volume', 'n': 3000, 'how': how}, sample=False)
-    for how in ('list', 'bytes', 'bytewise-late'):
-        ctx.check({'kind': 'volume', 'n': 140000 if how != 'bytewise-late' else 70000, 'how': how}, sample=False)
-    # real-time bytes of every type inside a sysex whose bytes are int subclasses / enum members
-    for how in ('intsub', 'enum'):
-        for L in (0, 1, 3):
-            payload = list(range(1, L + 1))
-            for pos in range(1, L + 2):
-                for b in RT_BYTES:
-                    ctx.check({'kind': 'rt', 'payload': payload, 'inserts': [[pos, b]], 'how': how}, sample=False)
-    big = [(i * 11) % 128 for i in range(70000)]
-    ctx.check({'kind': 'rt', 'payload': big, 'inserts': [[1, 0xF8], [35000, 0xFA], [70000, 0xFC]], 'how': 'bytes'}, sample=False)
-    # real-time inside sysex: exhaustive one and two insertions
-    maxpay = 8 if ctx.tier == 'thorough' else 5
-    for L in range(0, maxpay + 1):
+                            rec.check({'kind': 'prefix', 'prefix': enc[:k], 'msg': dd}, sample=False)
+    elif block == 'hows':
+        # every way of handing the bytes over, for every type as the final message behind a few prefixes
+        for t in R.ALL_TYPES:
+            for d in two_settings(t):
+                for prefix in ([], [0x90, 0x10], [0xF0, 0x01], [0x05, 0xF7]):
+                    for how in HOWS:
+                        rec.check({'kind': 'prefix', 'prefix': prefix, 'msg': d, 'how': how}, sample=False)
+        for how in HOWS:
+            rec.check({'kind': 'volume', 'n': 3000, 'how': how}, sample=False)
+        # real-time bytes of every type inside a sysex whose bytes are int subclasses / enum members
+        for how in ('intsub', 'enum'):
+            for L in (0, 1, 3):
+                payload = list(range(1, L + 1))
+                for pos in range(1, L + 2):
+                    for b in RT_BYTES:
+                        rec.check({'kind': 'rt', 'payload': payload, 'inserts': [[pos, b]], 'how': how}, sample=False)
+    elif block == 'volume':
+        how = arg
+        if how == 'rt':
+            big = [(i * 11) % 128 for i in range(70000)]
+            rec.check({'kind': 'rt', 'payload': big, 'inserts': [[1, 0xF8], [35000, 0xFA], [70000, 0xFC]], 'how': 'bytes'},
+                      sample=False)
+        else:
+            rec.check({'kind': 'volume', 'n': 140000 if how != 'bytewise-late' else 70000, 'how': how}, sample=False)
+    elif block == 'rt-exhaustive':
+        # real-time inside sysex: exhaustive one and two insertions
+        L = arg
         payload = [(i * 37 + 1) % 128 for i in range(L)]
         positions = range(1, L + 2)          # strictly inside F0 .. F7
         for pos in positions:
             for b in RT_BYTES:
-                ctx.check({'kind': 'rt', 'payload': payload, 'inserts': [[pos, b]]}, sample=(L == 2 and pos == 2))
+                rec.check({'kind': 'rt', 'payload': payload, 'inserts': [[pos, b]]}, sample=(L == 2 and pos == 2))
         for p1, p2 in itertools.combinations_with_replacement(positions, 2):
             for b1, b2 in itertools.product(RT_BYTES, repeat=2):
-                ctx.check({'kind': 'rt', 'payload': payload, 'inserts': [[p1, b1], [p2, b2]]}, sample=False)
-    n = 1500 if ctx.tier == 'quick' else 40000
-    pre = st.fixed_dictionaries({'kind': st.just('prefix'), 'prefix': S.byte_stream(max_chunks=6),
-                                 'msg': S.msg_dict(time=st.just(0), max_sysex=40), 'how': st.sampled_from(HOWS)})
-    ctx.hyp(pre, n, label='prefix')
-    cat = st.fixed_dictionaries({'kind': st.just('concat'),
-                                 'msgs': st.lists(S.msg_dict(time=st.just(0), max_sysex=40), max_size=12),
-                                 'how': st.sampled_from(HOWS)})
-    ctx.hyp(cat, n // 2, label='concat', seed_offset=1)
+                rec.check({'kind': 'rt', 'payload': payload, 'inserts': [[p1, b1], [p2, b2]]}, sample=False)
+    elif block == 'hyp':
+        which, k, n = arg
+        if which == 'grammar':
+            rec.hyp(segment_lists(), n, seed_offset=770 + k)
+        elif which == 'prefix':
+            pre = st.fixed_dictionaries({'kind': st.just('prefix'), 'prefix': S.byte_stream(max_chunks=6),
+                                         'msg': S.msg_dict(time=st.just(0), max_sysex=40), 'how': st.sampled_from(HOWS)})
+            rec.hyp(pre, n, seed_offset=k)
+        elif which == 'concat':
+            cat = st.fixed_dictionaries({'kind': st.just('concat'),
+                                         'msgs': st.lists(S.msg_dict(time=st.just(0), max_sysex=40), max_size=12),
+                                         'how': st.sampled_from(HOWS)})
+            rec.hyp(cat, n, seed_offset=100 + k)
+        else:
+            @st.composite
+            def rt_cases(draw):
+                payload = draw(S.sysex_payload(200))
+                kk = draw(st.integers(1, 12))
+                ins = sorted((draw(st.integers(1, len(payload) + 1)), draw(st.sampled_from(RT_BYTES))) for _ in range(kk))
+                return {'kind': 'rt', 'payload': payload, 'inserts': [list(x) for x in ins],
+                        'how': draw(st.sampled_from(HOWS))}
+            rec.hyp(rt_cases(), n, seed_offset=200 + k)
+    else:
+        raise KeyError(block)
 
-    @st.composite
-    def rt_cases(draw):
-        payload = draw(S.sysex_payload(200))
-        k = draw(st.integers(1, 12))
-        ins = sorted((draw(st.integers(1, len(payload) + 1)), draw(st.sampled_from(RT_BYTES))) for _ in range(k))
-        return {'kind': 'rt', 'payload': payload, 'inserts': [list(x) for x in ins], 'how': draw(st.sampled_from(HOWS))}
-    ctx.hyp(rt_cases(), n // 2, label='rt', seed_offset=2)
+
+def main(ctx):
+    tier = ctx.tier
+    maxlen = 3 if tier == 'quick' else 4
+    n = 1500 if tier == 'quick' else 40000
+    maxpay = 8 if tier == 'thorough' else 5
+    shards = [('volume', how, tier) for how in ('list', 'bytes', 'bytewise-late', 'rt')]
+    shards += [('hyp', (which, k, cnt // 4), tier) for which, cnt in (('grammar', 2 * n), ('prefix', n), ('concat', n // 2),
+                                                                      ('rt', n // 2)) for k in range(4)]
+    shards += [('cut-prefixes', t, tier) for t in R.ALL_TYPES]
+    shards += [('hows', None, tier)]
+    shards += [('rt-exhaustive', L, tier) for L in range(maxpay, -1, -1)]
+    ctx.pmap('block_shard', shards)
+    ctx.pmap('grammar_shard', [(t,) for t in R.ALL_TYPES if t not in R.REALTIME])
+    ctx.pmap('prefix_shard', [(a, maxlen) for a in S.CLASS_ALPHABET])
